@@ -616,6 +616,14 @@ def run(ctx, build):
         return
     if not two_volumes_probe(ctx, _FFS):
         return
+    # the lock these guarantees rest on: the scheduler-shim exploration of C13 (real RWLock vs the Coq model, stuck-state
+    # search of the model replayed on the implementation), reduced
+    from props import c13 as _c13
+    ctx.lock_runs = 2500 if ctx.thorough else 400
+    _c13.run(ctx, build)
+    if ctx.violations:
+        return
+
     if not readonly_volume_probe(ctx, _FFS):
         return
     nhist = 120 if ctx.thorough else 8
